@@ -19,8 +19,9 @@ package filter
 
 import (
 	"bytes"
+	"errors"
 
-	"github.com/apache/skywalking-banyandb/pkg/encoding"
+	"github.com/apache/skywalking-banyandb/pkg/encoding/vararray"
 	pbv1 "github.com/apache/skywalking-banyandb/pkg/pb/v1"
 )
 
@@ -122,17 +123,18 @@ func (df *DictionaryFilter) extractElements(serializedArray []byte, values [][]b
 	}
 
 	if df.valueType == pbv1.ValueTypeStrArr {
-		// For each query value, check if it exists in the array
-		// UnmarshalVarArray modifies the source in-place for decoding
-		// This approach has zero allocations and early-exits on match
+		// For each query value, check if it exists in the array.
+		// The entries are compared in their escaped form without decoding them in place:
+		// the serialized array is shared by every value of this call (and by later calls),
+		// and an in-place decode of an escaped entry would corrupt it for the next scan.
 		for _, v := range values {
 			found := false
 			for idx := 0; idx < len(serializedArray); {
-				end, next, err := encoding.UnmarshalVarArray(serializedArray, idx)
+				match, next, err := varArrayEntryEquals(serializedArray, idx, v)
 				if err != nil {
 					return false
 				}
-				if bytes.Equal(v, serializedArray[idx:end]) {
+				if match {
 					found = true
 					break
 				}
@@ -146,4 +148,29 @@ func (df *DictionaryFilter) extractElements(serializedArray []byte, values [][]b
 	}
 
 	return false
+}
+
+// varArrayEntryEquals reports whether the entry of the serialized variable-length array that starts
+// at idx decodes to v, and returns the index right after the entry's delimiter. src is not modified.
+func varArrayEntryEquals(src []byte, idx int, v []byte) (bool, int, error) {
+	match, j := true, 0
+	for i := idx; i < len(src); i++ {
+		b := src[i]
+		switch b {
+		case vararray.Escape:
+			i++
+			if i >= len(src) {
+				return false, 0, errors.New("invalid escape character")
+			}
+			b = src[i]
+		case vararray.EntityDelimiter:
+			return match && j == len(v), i + 1, nil
+		}
+		if match && j < len(v) && v[j] == b {
+			j++
+		} else {
+			match = false
+		}
+	}
+	return false, 0, errors.New("invalid variable array")
 }
